@@ -831,6 +831,21 @@ func (n *node) recv(p *Payload) {
 	n.skipRecv = false
 }
 
+// expectedValidators is the list GetValidators reports when the ledger is at height h-1 (what the callback computes, without logging)
+func (n *node) expectedValidators(h uint32) []dbft.PublicKey {
+	if len(n.base) == 0 {
+		return n.vals
+	}
+	if n.rot {
+		k := int(h) % len(n.base)
+		return append(append([]dbft.PublicKey{}, n.base[k:]...), n.base[:k]...)
+	}
+	if n.resize {
+		return append([]dbft.PublicKey{}, n.base[:sizeAt(h, len(n.base))]...)
+	}
+	return n.vals
+}
+
 // sizeAt is the number of validators at a height in the resize mode of the generator: N, N-1, N, N-2, ...
 func sizeAt(h uint32, n int) int {
 	switch h % 4 {
